@@ -73,6 +73,9 @@ META["rule"] += (
 META["rule"] += (
     " " + "Added after the eighth round: family 'histories' (the same state changes with and without queries in between, three objects); 30 % of the sequences hand their matrices over column-major or as a window of a larger buffer; the shared case has a second record of the same or another length and the two-layer constructor.")
 
+META["rule"] += (
+    " " + "Added after the ninth round: GeoGrid.convert_lon_coordinates among the argument cases (the caller's array, and the grid's own longitude sequence).")
+
 CULPRITS = {
     "Surrogates": [
         ("white_noise_surrogates", lambda o: o.white_noise_surrogates()),
@@ -687,8 +690,16 @@ def argument_case(ctx, r, cid):
     Lq = r.integers(0, 4, size=(3, 3)).astype(np.int32)
     obs = np.round(r.normal(size=(24, n)) * 8) / 8
     g24 = GeoGrid(np.arange(24.), lat, lon, silence_level=3)
+    lonq = lonf.copy()
+    glon = g.lon_sequence()
     calls = [
         ("GeoGrid.region_indices", [poly], lambda: g.region_indices(poly)),
+        # longitudes in the 0..360 convention, the caller's and the grid's
+        # own sequence (what the map plots hand over)
+        ("GeoGrid.convert_lon_coordinates", [lonq],
+         lambda: g.convert_lon_coordinates(lonq)),
+        ("GeoGrid.convert_lon_coordinates(own)", [glon],
+         lambda: g.convert_lon_coordinates(g.lon_sequence())),
         ("Network.set_link_attribute", [W],
          lambda: Network(adjacency=A.copy(), silence_level=3)
          .set_link_attribute("w", W)),
